@@ -183,6 +183,10 @@ type TCPConn struct {
 	ReadsDone  int // number of Read calls that returned data
 	// FailWrites: let writes fail (as an explorer choice) once the peer is gone
 	FailWrites bool
+	// FailWhenGone: once the peer has closed or reset, every write fails (deterministically)
+	FailWhenGone bool
+	// FailFrom (scripted sessions): the FailFrom-th write and every later one fail (0: never)
+	FailFrom int
 	// Owner / OwnerSeq identify the connection independently of the dial order: name of the dialling thread and
 	// how many connections it had dialled before
 	Owner    string
@@ -285,6 +289,16 @@ func (c *TCPConn) Write(b []byte) (int, error) {
 		name = t.Name
 	}
 	w.stepCtr = vs.StepNow()
+	if c.FailFrom > 0 && len(c.Out) >= c.FailFrom-1 {
+		// scripted sessions (outside an execution): every write from the FailFrom-th on fails
+		c.Out = append(c.Out, WriteRec{Data: cp, Thread: name, Step: w.stepCtr, Failed: true})
+		return 0, &net.OpError{Op: "write", Net: "tcp", Err: syscall.EPIPE}
+	}
+	if (c.peerClosed || c.peerReset) && c.FailWhenGone {
+		// deterministic variant: once the peer is gone every write fails (no choice, so the unbounded search covers it)
+		c.Out = append(c.Out, WriteRec{Data: cp, Thread: name, Step: w.stepCtr, Failed: true})
+		return 0, &net.OpError{Op: "write", Net: "tcp", Err: syscall.EPIPE}
+	}
 	if (c.peerClosed || c.peerReset) && c.FailWrites {
 		if vs.Choose("writefail", []int8{0, 1}) == 1 {
 			c.Out = append(c.Out, WriteRec{Data: cp, Thread: name, Step: w.stepCtr, Failed: true})
